@@ -23,6 +23,14 @@ class Clock:
     def __call__(self):
         return self.t
 
+    # the same object also stands in for the `time` MODULE (code written as `import time; time.time()`)
+    def time(self):
+        return self.t
+
+    def __getattr__(self, name):
+        import time as _time
+        return getattr(_time, name)
+
 
 class FakeSocket:
     _n = 0
@@ -325,16 +333,16 @@ class Net:
     def __enter__(self):
         from skepticoin.networking import local_peer as LP, remote_peer as RP, manager as MG
         from skepticoin import blockstore
-        self.saved = [(LP, 'socket', LP.socket), (LP, 'time', LP.time), (RP, 'time', RP.time),
-                      (RP, 'random', RP.random), (MG, 'random', MG.random), (LP, 'random', LP.random),
+        self.saved = [(LP, 'socket', LP.socket),
                       (blockstore.DefaultBlockStore, 'instance', blockstore.DefaultBlockStore.instance)]
         LP.socket = FakeSocketModule(self)
-        LP.time = self.clock
-        RP.time = self.clock
         r = random.Random(self.rng.getrandbits(32))
-        RP.random = r
-        MG.random = r
-        LP.random = r
+        # clock and randomness wherever the networking modules look them up (absent names are left alone)
+        for mod, name, val in ((LP, 'time', self.clock), (RP, 'time', self.clock), (MG, 'time', self.clock),
+                               (RP, 'random', r), (MG, 'random', r), (LP, 'random', r)):
+            if hasattr(mod, name):
+                self.saved.append((mod, name, getattr(mod, name)))
+                setattr(mod, name, val)
         self.loglevel = logging.root.manager.disable
         logging.disable(logging.CRITICAL)
         return self
